@@ -560,7 +560,36 @@ def run(ctx: Ctx, rs: RuleSet, tier: str):
                 'fiddler reads the value after it was replaced',
                 ctx.loc(f, u))
   if n_lookups == 0:
-    raise AnalysisError('no optional lookup test found in codegen_diff')
+    # nothing is looked up optionally any more: nothing to test by identity
+    rs.ok(rule, f'{CD}:none', 'no optional (.get) lookup of a configuration '
+          'value is tested in this module', '', nontrivial=False)
+  # ---- alias groups: a shared value's other paths are recorded when *any* of
+  # its paths is modified
+  rule = 'QUANT.alias-group-membership'
+  rs.declare(rule, 'the paths of a shared value are added when any one of them '
+             'is among the modified paths', 1)
+  ap = ctx.func(f'{CD}._add_path_aliases')
+  pset = ap.params[0]
+  one_member = [c for c in walk_function(ap.node) if isinstance(
+      c, ast.Compare) and len(c.ops) == 1 and isinstance(
+          c.ops[0], (ast.In, ast.NotIn)) and unparse(
+              c.comparators[0]) == pset and isinstance(
+                  c.left, ast.Subscript) and isinstance(
+                      c.left.slice, ast.Constant)]
+  updates = [c for c in walk_function(ap.node) if isinstance(c, ast.Call) and
+             isinstance(c.func, ast.Attribute) and c.func.attr in (
+                 'update', 'add', '__ior__') and unparse(c.func.value) == pset]
+  updates += [c for c in walk_function(ap.node) if isinstance(
+      c, ast.AugAssign) and unparse(c.target) == pset]
+  rs.check(bool(updates) and not one_member, rule, ap.qualname,
+           'alias paths are added for every modified path of a shared value'
+           if updates and not one_member else
+           (f'`{unparse(one_member[0])}` asks about one fixed member of the '
+            'group only: when a value is modified through another of its '
+            'paths the aliases are not recorded, and the generated fiddler '
+            'reads the value through a path that was already overwritten'
+            if one_member else 'no update of the path set found'),
+           ctx.loc(ap, one_member[0] if one_member else ap.node))
 
   # ---- names from the namespace
   rule = 'WMC.generated-names'
